@@ -16,6 +16,9 @@ def deductive(tier="quick", seed=0):
 
         tasks += TC.tasks(C)
         tasks += TC.shrink_grow_tasks(C, tier)
+        from contracts import stab_state as SS
+
+        tasks += SS.shrink_tasks(C)
     except ImportError:
         pass
     d = run_tasks(tasks)
